@@ -379,6 +379,13 @@ def evaluate(ctx, exe, mexe, cases, st, record=True):
             spec_owner.append((i, "what the RANDOMIZED front-end sees of the returned covariance matrix (upper "
                                   "triangle) is not the sample covariance of the data" + old, "violation"))
             st.exact_compared += 1
+            mm = model[(i, "mean")].split()
+            mvals = [parse_fr(t) for t in mm[1:]] if mm and mm[0] == "OK" else None
+            ivals = [row[0] for row in mean[2]]
+            if mvals is None or len(mvals) != D or \
+                    (c["exact"] and mvals != ivals) or \
+                    (not c["exact"] and any(abs(a - b) > TOL_DENSE * (1 + scale_tol(c["X"])) for a, b in zip(mvals, ivals))):
+                mism(i, "compute_mean: implementation %s, model %s" % ([str(x) for x in ivals[:4]], mm[:5]))
             if c["exact"]:
                 if cov[2] != Cm:
                     bad = next(((a, b) for a in range(D) for b in range(D) if cov[2][a][b] != Cm[a][b]), None)
@@ -574,13 +581,21 @@ def shrink_case(ctx, exe, mexe, c):
     lo = (c["d"] + 1) if c["kind"] == "EMB" else 1
     rows = list(range(c["N"]))
 
+    def sub_case(sub):
+        n = len(sub)
+        cc = dict(c, X=[c["X"][r] for r in sub], N=n, agree=False)
+        if c["kind"] == "COV":
+            # the exact comparison is only meaningful when the division by N is exact in binary64
+            cc["exact"] = bool(c.get("exact")) and (n & (n - 1) == 0)
+        return cc
+
     def f(sub):
         if len(sub) < lo:
             return False
-        return fails(dict(c, X=[c["X"][r] for r in sub], N=len(sub), agree=False))
+        return fails(sub_case(sub))
     sub = vlib.shrink_list(rows, f, max_steps=30)
     if len(sub) < c["N"] and f(sub):
-        return dict(c, X=[c["X"][r] for r in sub], N=len(sub))
+        return sub_case(sub)
     return c
 
 
